@@ -28,6 +28,20 @@ ALLOWED_AXIOMS = {
     # primitive integers: primitives, not axioms (Print Assumptions lists them)
 }
 
+# `coqchk -o` (thorough tier) lists every primitive and every axiom of the standard library's Coq.Numbers.Cyclic.Int63
+# that is in the closure of the checked library, used by a theorem or not (the executable SHA-256 of Merkle/Sha256.v
+# imports Uint63).  They are declared by the standard library, accepted in the coqchk stage for every check and
+# reported in the evidence; what each theorem really depends on is pinned separately by Print Assumptions.
+COQCHK_INT63 = {"Coq.Numbers.Cyclic.Int63." + x for x in """PrimInt63.compares Uint63.mod_spec Uint63.addcarryc_def_spec
+PrimInt63.diveucl_21 Uint63.subc_def_spec Uint63.addmuldiv_def_spec Uint63.tail0_spec Uint63.leb_spec Uint63.head0_spec
+PrimInt63.addmuldiv PrimInt63.addcarryc Uint63.mulc_spec Uint63.diveucl_def_spec Uint63.add_spec PrimInt63.tail0 PrimInt63.head0
+PrimInt63.subc PrimInt63.mulc PrimInt63.mods PrimInt63.lxor PrimInt63.ltsb PrimInt63.lesb PrimInt63.land PrimInt63.divs
+PrimInt63.addc PrimInt63.sub PrimInt63.mul PrimInt63.mod PrimInt63.ltb PrimInt63.lsr PrimInt63.lsl PrimInt63.lor PrimInt63.leb
+PrimInt63.int PrimInt63.eqb PrimInt63.div PrimInt63.asr PrimInt63.add Uint63.eqb_correct Uint63.lxor_spec Uint63.eqb_refl
+PrimInt63.subcarryc Uint63.ltb_spec Uint63.lsr_spec Uint63.lsl_spec Uint63.subcarryc_def_spec Uint63.compare_def_spec
+Uint63.div_spec Uint63.mul_spec Uint63.of_to_Z Uint63.sub_spec Uint63.land_spec Uint63.lor_spec PrimInt63.diveucl
+Uint63.diveucl_21_spec PrimInt63.compare Uint63.addc_def_spec""".split()}
+
 
 class Infra(Exception):
     """tooling failure (not a verdict about the property)"""
@@ -589,7 +603,12 @@ def proof_stage(rep, prop_file, extra_targets=(), allowed_axioms=(), translators
         m = re.search(r"\* Axioms:(.*?)\n\s*\n\* Constants", out, re.S)
         axioms = m.group(1).strip() if m else "?"
         rep.coverage["coqchk"] = {"cmd": "coqchk -silent -o -Q . RS %s" % mod, "exit": rc, "axioms": axioms}
-        bad_ax = [a for a in re.findall(r"^\s*([\w.']+)", axioms, re.M) if a not in ("<none>",) and a not in allowed_axioms and a not in ALLOWED_AXIOMS]
+        listed = [a for a in re.findall(r"^\s*([\w.']+)", axioms, re.M) if a not in ("<none>",)]
+        bad_ax = [a for a in listed if a not in allowed_axioms and a not in ALLOWED_AXIOMS and a not in COQCHK_INT63]
+        if any(a in COQCHK_INT63 for a in listed):
+            rep.assumptions.append("coqchk -o lists %d primitives/axioms of the standard library's Coq.Numbers.Cyclic.Int63 "
+                                   "(loaded by the executable SHA-256), whether a theorem uses them or not"
+                                   % sum(1 for a in listed if a in COQCHK_INT63))
         if rc != 0 or "<none>" not in axioms and bad_ax:
             rep.violation("coqchk does not accept %s (exit %d, axioms: %s)" % (mod, rc, axioms[:300]), {"coqchk": out[-2000:]}, False)
             ok_all = False
